@@ -118,6 +118,11 @@ def main():
                     probes.append(r)
                 res["probes"] = probes
             elif job["what"] == "endpoint":
+                enums = {}
+                for n, o in vars(mod).items():
+                    if isinstance(o, type) and issubclass(o, enum.Enum) and o.__module__.startswith(pkg):
+                        enums[n] = {"members": [[k, enc(m.value)] for k, m in o.__members__.items()], "canonical": [m.name for m in o]}
+                res["enums"] = enums
                 fn = getattr(mod, job.get("fn", "sync_detailed"))
                 sig = inspect.signature(fn)
                 res["defaults"] = {n: enc(p.default) for n, p in sig.parameters.items()}
